@@ -908,7 +908,16 @@ def tokenize(content: str, lenient: bool = False) -> tuple[list[Token], list[Any
                     if "." in matched_text or "e" in matched_text.lower():
                         value = float(matched_text)
                     else:
-                        value = int(matched_text)
+                        try:
+                            value = int(matched_text)
+                        except ValueError as e:
+                            # CPython refuses to convert integer literals beyond its digit limit
+                            raise LexerError(
+                                f"Integer literal too large ({len(matched_text)} characters)",
+                                line,
+                                column,
+                                "E005",
+                            ) from e
                     # Store raw lexeme for multi-word value reconstruction
                     raw_lexeme = matched_text
                 elif token_type == TokenType.BOOLEAN:
